@@ -766,14 +766,14 @@ theorem valuesAtSigner_cache {pm : PM} {at_ : Option Nat} {now : Nat} {f : Optio
       cases hl : pm.claims.getLast? with
       | none =>
         simp only [hl, Option.some.injEq] at h
-        exact ⟨⟨a0, rfl, fun _ => h.symm, fun s hs => by cases hs⟩, fun last hl' => by cases hl'⟩
+        exact ⟨⟨a0, rfl, fun _ => h.symm, fun s hs => (by cases hs)⟩, fun last hl' => by cases hl'⟩
       | some last =>
         simp only [hl] at h
         split at h
         · cases h
         · rename_i hle
           simp only [Option.some.injEq] at h
-          refine ⟨⟨a0, rfl, fun _ => h.symm, fun s hs => by cases hs⟩, ?_⟩
+          refine ⟨⟨a0, rfl, fun _ => h.symm, fun s hs => (by cases hs)⟩, ?_⟩
           intro last' hl'
           cases hl'
           omega
@@ -786,14 +786,14 @@ theorem valuesAtSigner_cache {pm : PM} {at_ : Option Nat} {now : Nat} {f : Optio
         cases hl : pm.claims.getLast? with
         | none =>
           simp only [hl, Option.some.injEq] at h
-          exact ⟨⟨a0, rfl, fun hn => by cases hn, fun s' hs => by cases hs; rw [hk, h]⟩, fun last hl' => by cases hl'⟩
+          exact ⟨⟨a0, rfl, fun hn => (by cases hn), fun s' hs => (by cases hs; rw [hk, h])⟩, fun last hl' => by cases hl'⟩
         | some last =>
           simp only [hl] at h
           split at h
           · cases h
           · rename_i hle
             simp only [Option.some.injEq] at h
-            refine ⟨⟨a0, rfl, fun hn => by cases hn, fun s' hs => by cases hs; rw [hk, h]⟩, ?_⟩
+            refine ⟨⟨a0, rfl, fun hn => (by cases hn), fun s' hs => (by cases hs; rw [hk, h])⟩, ?_⟩
             intro last' hl'
             cases hl'
             omega
@@ -912,5 +912,299 @@ theorem pmHasAttrValue_eq (pm : PM) (hi : Inv pm) (attr val : Bytes) (at_ : Opti
       obtain ⟨s, hf, _⟩ := valuesAtSigner_nilok h
       cases hf
     | some m => simp only; rw [cache_valid pm hi at_ now none m h attr]
+
+/-! ## deletion -/
+
+/-- delete claims target blobs that exist already: `ord` (e.g. the arrival position) grows from a
+target to each of its deleters, and stays below `bound` -/
+structure DelWF (ds : List Del) (ord : Ref → Nat) (bound : Nat) : Prop where
+  lt : ∀ d ∈ ds, ord d.target < ord (.cl d.deleter)
+  bounded : ∀ d ∈ ds, ord (.cl d.deleter) < bound
+
+theorem any_congr_mem {α : Type} (l : List α) (p q : α → Bool) (h : ∀ x ∈ l, p x = q x) : l.any p = l.any q := by
+  induction l with
+  | nil => rfl
+  | cons a t ih =>
+    simp only [List.any_cons]
+    rw [h a (by simp), ih (fun x hx => h x (by simp [hx]))]
+
+/-- with enough fuel for the blobs above `x`, one more unit changes nothing -/
+theorem isDeletedIn_succ (ds : List Del) (ord : Ref → Nat) (bound : Nat) (wf : DelWF ds ord bound) :
+    ∀ (fuel : Nat) (x : Ref), bound ≤ ord x + fuel → isDeletedIn fuel ds x = isDeletedIn (fuel + 1) ds x := by
+  intro fuel
+  induction fuel with
+  | zero =>
+    intro x hx
+    simp only [isDeletedIn]
+    symm
+    rw [List.any_eq_false]
+    intro d hd
+    rw [List.mem_filter] at hd
+    have h1 := wf.lt d hd.1
+    have h2 := wf.bounded d hd.1
+    have h3 : d.target = x := by simpa using hd.2
+    rw [h3] at h1
+    omega
+  | succ f ih =>
+    intro x hx
+    rw [isDeletedIn]
+    conv => rhs; rw [isDeletedIn]
+    apply any_congr_mem
+    intro d hd
+    rw [List.mem_filter] at hd
+    have h1 := wf.lt d hd.1
+    have h3 : d.target = x := by simpa using hd.2
+    rw [h3] at h1
+    rw [ih (.cl d.deleter) (by omega)]
+
+/-- **the recursion satisfies the defining equation of "deleted"**: `x` is deleted iff some delete
+claim targets `x` whose own ref is not deleted – at any chain depth -/
+theorem isDeletedIn_fixpoint (ds : List Del) (ord : Ref → Nat) (bound : Nat) (wf : DelWF ds ord bound)
+    (fuel : Nat) (hf : bound ≤ fuel) (x : Ref) :
+    isDeletedIn fuel ds x
+      = (ds.filter (fun d => decide (d.target = x))).any (fun d => !isDeletedIn fuel ds (.cl d.deleter)) := by
+  rw [isDeletedIn_succ ds ord bound wf fuel x (by omega)]
+  rfl
+
+/-- **and it is the only predicate that does** -/
+theorem isDeletedIn_unique (ds : List Del) (ord : Ref → Nat) (bound : Nat) (wf : DelWF ds ord bound)
+    (fuel : Nat) (hf : bound ≤ fuel) (P : Ref → Bool)
+    (hP : ∀ x, P x = (ds.filter (fun d => decide (d.target = x))).any (fun d => !P (.cl d.deleter))) :
+    ∀ x, P x = isDeletedIn fuel ds x := by
+  suffices ∀ n x, bound ≤ ord x + n → P x = isDeletedIn fuel ds x by
+    intro x; exact this bound x (by omega)
+  intro n
+  induction n with
+  | zero =>
+    intro x hx
+    rw [hP x, isDeletedIn_fixpoint ds ord bound wf fuel hf x]
+    apply any_congr_mem
+    intro d hd
+    rw [List.mem_filter] at hd
+    have h1 := wf.lt d hd.1
+    have h2 := wf.bounded d hd.1
+    have h3 : d.target = x := by simpa using hd.2
+    rw [h3] at h1
+    omega
+  | succ n ih =>
+    intro x hx
+    rw [hP x, isDeletedIn_fixpoint ds ord bound wf fuel hf x]
+    apply any_congr_mem
+    intro d hd
+    rw [List.mem_filter] at hd
+    have h1 := wf.lt d hd.1
+    have h3 : d.target = x := by simpa using hd.2
+    rw [h3] at h1
+    rw [ih (.cl d.deleter) (by omega)]
+
+theorem any_filter_of_mem_iff {ds ds' : List Del} (h : ∀ d, d ∈ ds ↔ d ∈ ds') (p q : Del → Bool) :
+    (ds.filter p).any q = (ds'.filter p).any q := by
+  rw [Bool.eq_iff_iff, List.any_eq_true, List.any_eq_true]
+  constructor
+  · rintro ⟨d, hd, hq⟩
+    rw [List.mem_filter] at hd
+    exact ⟨d, List.mem_filter.mpr ⟨(h d).mp hd.1, hd.2⟩, hq⟩
+  · rintro ⟨d, hd, hq⟩
+    rw [List.mem_filter] at hd
+    exact ⟨d, List.mem_filter.mpr ⟨(h d).mpr hd.1, hd.2⟩, hq⟩
+
+/-- the answer depends only on which deletions are recorded, not on their order or multiplicity
+(newest-first sorting, the duplicate check of updateDeletes, the row order of initDeletes) -/
+theorem isDeletedIn_congr {ds ds' : List Del} (h : ∀ d, d ∈ ds ↔ d ∈ ds') (fuel : Nat) (x : Ref) :
+    isDeletedIn fuel ds x = isDeletedIn fuel ds' x := by
+  induction fuel generalizing x with
+  | zero => rfl
+  | succ f ih =>
+    simp only [isDeletedIn]
+    rw [any_filter_of_mem_iff h]
+    apply any_congr_mem
+    intro d _
+    rw [ih]
+
+theorem mem_foldl_updateDeletesCache (l acc : List Del) (d : Del) :
+    d ∈ l.foldl updateDeletesCache acc ↔ d ∈ acc ∨ d ∈ l := by
+  induction l generalizing acc with
+  | nil => simp
+  | cons a t ih =>
+    rw [List.foldl_cons, ih]
+    have : d ∈ updateDeletesCache acc a ↔ d ∈ acc ∨ d = a := by
+      simp [updateDeletesCache]
+    rw [this, List.mem_cons]
+    constructor
+    · rintro ((h | h) | h)
+      · exact Or.inl h
+      · exact Or.inr (Or.inl h)
+      · exact Or.inr (Or.inr h)
+    · rintro (h | h | h)
+      · exact Or.inl (Or.inl h)
+      · exact Or.inl (Or.inr h)
+      · exact Or.inr h
+
+theorem mem_foldl_updateDeletes (l acc : List Del) (d : Del) :
+    d ∈ l.foldl updateDeletes acc ↔ d ∈ acc ∨ d ∈ l := by
+  induction l generalizing acc with
+  | nil => simp
+  | cons a t ih =>
+    rw [List.foldl_cons, ih]
+    have : d ∈ updateDeletes acc a ↔ d ∈ acc ∨ d = a := by
+      unfold updateDeletes
+      by_cases ha : a ∈ acc
+      · simp only [ha, if_true]
+        constructor
+        · exact Or.inl
+        · rintro (h | h)
+          · exact h
+          · subst h; exact ha
+      · simp [ha]
+    rw [this, List.mem_cons]
+    constructor
+    · rintro ((h | h) | h)
+      · exact Or.inl h
+      · exact Or.inr (Or.inl h)
+      · exact Or.inr (Or.inr h)
+    · rintro (h | h | h)
+      · exact Or.inl (Or.inl h)
+      · exact Or.inl (Or.inr h)
+      · exact Or.inr h
+
+theorem World.mem_deletes (w : World) (m : Mode) (d : Del) : d ∈ w.deletes m ↔ d ∈ w.dels := by
+  cases m with
+  | idx => simp [World.deletes, World.idxDeletes, mem_foldl_updateDeletesCache]
+  | inc => simp [World.deletes, World.incDeletes, mem_foldl_updateDeletes]
+  | load => simp only [World.deletes, World.loadDeletes]; exact (sortBy_perm _ _).mem_iff
+
+/-! ## filtering commutes with the (stable) date sort -/
+
+theorem ins_of_le_all (a : Claim) (l : List Claim) (h : ∀ x ∈ l, a.date ≤ x.date) : ins dateLe a l = a :: l := by
+  cases l with
+  | nil => rfl
+  | cons b t =>
+    have := h b (by simp)
+    simp [ins, dateLe, this]
+
+theorem filter_ins (p : Claim → Bool) (a : Claim) (l : List Claim) (hs : Sorted l) :
+    (ins dateLe a l).filter p = if p a then ins dateLe a (l.filter p) else l.filter p := by
+  induction l with
+  | nil => by_cases hp : p a <;> simp [ins, hp]
+  | cons b t ih =>
+    unfold Sorted at hs
+    rw [List.pairwise_cons] at hs
+    have ih' := ih hs.2
+    simp only [ins]
+    by_cases hab : dateLe a b = true
+    · simp only [hab, if_true]
+      have hab' : a.date ≤ b.date := by simpa [dateLe] using hab
+      by_cases hp : p a
+      · simp only [hp, if_true]
+        rw [List.filter_cons, if_pos hp]
+        rw [ins_of_le_all]
+        intro x hx
+        have hx' := (List.mem_filter.mp hx).1
+        cases hx' with
+        | head => exact hab'
+        | tail _ hx'' => exact Nat.le_trans hab' (hs.1 x hx'')
+      · simp only [hp]
+        rw [List.filter_cons]
+        simp [hp]
+    · rw [if_neg hab, List.filter_cons, ih']
+      have hins : ∀ l', ins dateLe a (b :: l') = b :: ins dateLe a l' := by
+        intro l'; simp only [ins]; rw [if_neg hab]
+      by_cases hp : p a
+      · simp only [hp, if_true]
+        by_cases hb : p b
+        · simp only [hb, if_true, List.filter_cons]
+          rw [hins]
+        · simp [hb, List.filter_cons]
+      · simp only [hp]
+        by_cases hb : p b <;> simp [hb, List.filter_cons]
+
+theorem filter_sortByDate (p : Claim → Bool) (l : List Claim) :
+    (sortByDate l).filter p = sortByDate (l.filter p) := by
+  induction l with
+  | nil => rfl
+  | cons a t ih =>
+    show (ins dateLe a (sortBy dateLe t)).filter p = sortByDate ((a :: t).filter p)
+    rw [filter_ins p a (sortBy dateLe t) (sortByDate_sorted t)]
+    have ih' : (sortBy dateLe t).filter p = sortBy dateLe (t.filter p) := ih
+    by_cases hp : p a
+    · simp only [hp, if_true, List.filter_cons, ih']
+      rfl
+    · simp only [hp, List.filter_cons]
+      exact ih
+
+/-! ## the three paths over one history -/
+
+/-- the claim rows of permanode `p`, in arrival order -/
+def World.claimsOf (w : World) (p : Nat) : List Claim := w.claims.filter (fun c => decide (c.pn = p))
+
+/-- the claim rows of permanode `p`, in the key order of the sorted.KeyValue -/
+def World.rowsOf (w : World) (p : Nat) : List Claim := w.rows.filter (fun c => decide (c.pn = p))
+
+theorem World.rowsOf_perm (w : World) (p : Nat) : (w.rowsOf p).Perm (w.claimsOf p) :=
+  List.Perm.filter _ (sortBy_perm _ _)
+
+/-- the PermanodeMeta of either corpus holds the permanode's claim rows in date order, with caches
+equal to the folds -/
+theorem World.pm_inv (w : World) (m : Mode) (p : Nat) (pm : PM) (h : w.pm m p = some pm) :
+    Inv pm ∧ pm.claims.Perm (w.claimsOf p) := by
+  cases m with
+  | idx => simp [World.pm] at h
+  | inc =>
+    simp only [World.pm] at h
+    split at h
+    · cases h
+    · cases h
+      exact incPM_inv _
+  | load =>
+    simp only [World.pm] at h
+    split at h
+    · cases h
+    · cases h
+      obtain ⟨h1, h2⟩ := loadPM_inv (w.rowsOf p)
+      exact ⟨h1, h2.trans (w.rowsOf_perm p)⟩
+
+theorem World.pm_none (w : World) (m : Mode) (p : Nat) (hm : m ≠ .idx) (h : w.pm m p = none) :
+    w.claimsOf p = [] := by
+  cases m with
+  | idx => exact absurd rfl hm
+  | inc =>
+    simp only [World.pm] at h
+    split at h
+    · rename_i he; exact he
+    · cases h
+  | load =>
+    simp only [World.pm] at h
+    split at h
+    · rename_i he
+      have := (w.rowsOf_perm p).length_eq
+      have he' : w.rowsOf p = [] := he
+      rw [he'] at this
+      exact List.eq_nil_of_length_eq_zero this.symm
+    · cases h
+
+/-- the loaded corpus holds exactly the date sort of the rows -/
+theorem World.pm_load_claims (w : World) (p : Nat) (pm : PM) (h : w.pm .load p = some pm) :
+    pm.claims = sortByDate (w.rowsOf p) := by
+  simp only [World.pm] at h
+  split at h
+  · cases h
+  · cases h
+    exact restoreInvariants_claims _
+
+/-- the index path (AppendClaims, sort, fold): the fold of the date-sorted rows that count and are not
+deleted -/
+theorem World.idxAttrValue_eq (w : World) (p : Nat) (attr : Bytes) (at_ : Option Nat) (now : Nat) (f : Option Nat) :
+    w.idxAttrValue p attr at_ now f
+      = headVal (foldVals ((sortByDate (w.rowsOf p)).filter
+          (fun c => rel attr (at_.getD now) f c && !w.idxIsDeleted (.cl c.id)))) := by
+  unfold World.idxAttrValue claimsIntfAttrValue
+  rw [claimsIntfAttrValues_eq]
+  unfold World.idxAppendClaims
+  rw [← filter_sortByDate, List.filter_filter]
+  congr 2
+  apply List.filter_congr
+  intro c _
+  simp only [World.rowsOf, rel, Bool.and_true]
+  cases signerOk f c <;> cases w.idxIsDeleted (.cl c.id) <;> simp
 
 end Pk.Attr
